@@ -578,6 +578,8 @@ class Interp:
 
     def st_Raise(self, s, f):
         if s.exc is None:
+            if getattr(f, "current_exc", None) is not None:
+                raise f.current_exc
             raise Unsupported("bare raise")
         v = self.eval_exc(s.exc, f)
         raise PyRaise(v.etype, v.args)
@@ -759,7 +761,11 @@ class Interp:
                     if names is None or any(exc_isa(e.etype, n) for n in names):
                         if h.name:
                             f.locals[h.name] = ExcValue(e.etype, e.msg)
-                        self.exec_block(h.body, f)
+                        f.current_exc = e
+                        try:
+                            self.exec_block(h.body, f)
+                        finally:
+                            f.current_exc = None
                         break
                 else:
                     raise
@@ -823,7 +829,10 @@ class Interp:
         return list(self.eval_star(e.elts, f))
 
     def ex_Set(self, e, f):
-        return set(self.eval_star(e.elts, f))
+        items = self.eval_star(e.elts, f)
+        if any(is_z3(x) for x in items):
+            return SymSet([(True, x) for x in items])
+        return set(items)
 
     def eval_star(self, elts, f):
         out = []
@@ -1291,6 +1300,47 @@ class Frame:
 class ExcValue:
     def __init__(self, etype, args=()):
         self.etype, self.args = etype, args
+
+
+class SymSet:
+    """finite set of SMT terms with conditional membership: [(cond, elem)] (duplicates allowed)"""
+
+    def __init__(self, items):
+        self.items = list(items)
+
+    @staticmethod
+    def _c(c):
+        return z3.BoolVal(c) if isinstance(c, bool) else c
+
+    def has(self, x):
+        alts = [z3.And(SymSet._c(c), to_z3(a) == to_z3(x)) for c, a in self.items]
+        return z3.Or(alts) if alts else z3.BoolVal(False)
+
+    def __vc_binop__(self, I, op, other, reflected):
+        if isinstance(other, (set, frozenset)):
+            other = SymSet([(True, x) for x in other])
+        if not isinstance(other, SymSet):
+            return NotImplemented
+        a, b = (other, self) if reflected else (self, other)
+        if isinstance(op, ast.BitAnd):
+            return SymSet([(z3.And(SymSet._c(c), b.has(x)), x) for c, x in a.items])
+        if isinstance(op, ast.BitOr):
+            return SymSet(a.items + b.items)
+        if isinstance(op, ast.Sub):
+            return SymSet([(z3.And(SymSet._c(c), z3.Not(b.has(x))), x) for c, x in a.items])
+        return NotImplemented
+
+    def __vc_iop__(self, I, op, other):
+        return self.__vc_binop__(I, op, other, False)
+
+    def __vc_truth__(self, I):
+        return z3.Or([SymSet._c(c) for c, _ in self.items]) if self.items else False
+
+    def __vc_contains__(self, I, x):
+        return self.has(x)
+
+    def __vc_iter__(self, I):
+        return [x for c, x in self.items if I.ex.branch(SymSet._c(c))]
 
 
 class SymKey:
